@@ -7,7 +7,11 @@ _G = {}
 
 
 def _worker(i):
-    return _G["fn"](_G["items"][i])
+    r = _G["fn"](_G["items"][i])
+    from . import interp
+    if interp.COV is not None:
+        interp.cov_flush()
+    return r
 
 
 def pmap(fn, items, jobs=None, min_items=24):
